@@ -102,6 +102,8 @@ var units = []unit{
 		{"src/cipher/secp256k1-go/secp256k1-go2", "Field", "SetInt"},
 		{"src/cipher/secp256k1-go/secp256k1-go2", "Field", "SetB32"},
 		{"src/cipher/secp256k1-go/secp256k1-go2", "Field", "GetB32"},
+		{"src/cipher/secp256k1-go/secp256k1-go2", "Field", "Mul"},
+		{"src/cipher/secp256k1-go/secp256k1-go2", "Field", "Sqr"},
 	}},
 	{File: "FeeTxn", Imports: []string{"Mathutil", "Fee", "CoinHours", "CoinLoops"}, Fns: []fnSpec{
 		{"src/util/fee", "", "VerifyTransactionFee"},
